@@ -117,3 +117,22 @@ def returns_classified (fnode):
     if v is None or (isinstance(v, ast.Constant) and v.value is None): out.append((r, 'none'))
     else: out.append((r, 'value'))
   return out
+
+
+def capacity_after_removal (ctx, repo, sw, clause):
+  """OFPFC_ADD: the table-full test must come after the strict removal of the identical entry (shared by C04 and C13)"""
+  import ast as _ast
+  from . import q as _q
+  from .model import call_name as _cn, norm as _norm
+  add = sw.find_method('_flow_mod_add')
+  if add is None: return
+  g = _q.cfg_of(add)
+  rems = g.nodes_with_call(lambda c: _cn(c) == 'remove_matching_entries')
+  caps = [n for n in g.nodes if n.kind == 'cond' and 'max_entries' in _norm(n.ast)]
+  if not (caps and rems): return
+  fb = [b for b in g.nodes if b.kind == 'branch' and _norm(b.label[0]) in ('flow_mod.command == OFPFC_ADD', 'OFPFC_ADD == flow_mod.command') and b.label[1] is False]
+  r = g.reachable(g.entry, avoid=set(rems) | set(fb))
+  early = [c_ for c_ in caps if c_ in r]
+  ctx.ob('R-ORDER', add, "the table-full test comes after the identical entry was removed (OFPFC_ADD)", not early, "removal precedes `%s`" % _norm(caps[0].ast)[:40] if not early else
+         "`%s` is evaluated before the entry with identical match and priority is removed: with the table at max_entries an ADD that merely replaces an entry is answered with ALL_TABLES_FULL and not applied - "
+         "an error for a message that needs no reply" % _norm(early[0].ast)[:40], (sw.module, (early or caps)[0].ast), clause)
